@@ -1,1 +1,4 @@
-//! harness package hfs
+//! harness package hfs (C08: file and pipe I/O)
+pub mod common;
+pub mod force;
+pub mod osleg;
